@@ -46,6 +46,8 @@ structure PrimsOK (P : Prims) : Prop where
   intU : ∀ bits (z : Int), 0 ≤ z → z < 2 ^ bits → P.parseInt false bits (showInt z) = some z
   intS : ∀ bits (z : Int), -(2 ^ (bits - 1) : Int) ≤ z → z < 2 ^ (bits - 1) → P.parseInt true bits (showInt z) = some z
   intUtf8 : ∀ z, P.validUtf8 (showInt z) = true
+  pctInt : ∀ z, P.percentDecode (showInt z) = showInt z            -- digits and the sign hold no escape
+  pctBool : P.percentDecode TRUE = TRUE ∧ P.percentDecode FALSE = FALSE
   chr : ∀ c, (c < 0xD800 ∨ (0xE000 ≤ c ∧ c < 0x110000)) → P.validUtf8 (utf8Enc c) = true ∧ P.utf8Chars (utf8Enc c) = some [c]
 
 theorem alnum_pct_clean : ∀ x : UInt8, (Percent.isAlnum x = true ∨ x = Percent.PCT) → x ≠ AMP ∧ x ≠ EQ ∧ x ≠ COMMA := by
